@@ -27,12 +27,14 @@ class Harness:
     def __init__(self, top, ports, **objs):
         self.top = top
         self.ports = list(ports)
+        self.mems = objs.pop("mems", [])     # [(MemoryData, hint)]
         self.__dict__.update(objs)
         self.ts = None
 
     def translate(self):
         if self.ts is None:
             self.ts = TS(self.top, self.ports)
+            self.ts.bind_memories(self.mems)
         return self.ts
 
 
@@ -176,6 +178,11 @@ class _TraceFrame:
         n = len(signal)
         return z3.BitVec(f"dry_{id(signal)}", n) if n else None
 
+    def mem_row(self, md, row):
+        self.rec[("mem", id(md), row)] = (md, row)
+        from amaranth.hdl import Shape
+        return z3.BitVec(f"dry_m{id(md)}_{row}", Shape.cast(md.shape).width)
+
 
 class SimFrame:
     """Frame backed by simulator observations (constants)."""
@@ -188,6 +195,11 @@ class SimFrame:
         if n == 0:
             return None
         return bv(n, self.values[id(signal)] & ((1 << n) - 1))
+
+    def mem_row(self, md, row):
+        from amaranth.hdl import Shape
+        n = Shape.cast(md.shape).width
+        return bv(n, self.values[("mem", id(md), row)] & ((1 << n) - 1))
 
 
 def simulate(h, stimulus, observe):
@@ -214,7 +226,10 @@ def simulate(h, stimulus, observe):
                     ctx.set(s, val)
             row = {}
             for s in observe:
-                if len(s):
+                if isinstance(s, tuple):
+                    md, r = s
+                    row[("mem", id(md), r)] = int(ctx.get(md[r]))
+                elif len(s):
                     v = ctx.get(s)
                     row[id(s)] = int(v) & ((1 << len(s)) - 1)
             trace.append(row)
@@ -229,6 +244,8 @@ def model_stimulus(ts, frames, model):
     for f in frames:
         step = {}
         for pname, idx in ts.input_port_index.items():
+            if pname not in f.inputs:
+                continue
             v = model.eval(f.inputs[pname], model_completion=True)
             step[str(idx)] = v.as_long()
         stim.append(step)
@@ -331,10 +348,11 @@ def cosim(make, cycles=24, seed=0, stats=None, extra=lambda h: []):
     st = ts.reset_state()
     idx2name = {v: k for k, v in ts.input_port_index.items()}
     for t in range(cycles):
-        inp = {p: bv(w, 0) for p, (s, w) in ts.inputs.items()}
+        inp = {p: bv(w, 0) for p, (s, w) in ts.inputs.items() if w > 0}
         for i, v in stim[t].items():
             p = idx2name[int(i)]
-            inp[p] = bv(ts.inputs[p][1], v)
+            if ts.inputs[p][1] > 0:
+                inp[p] = bv(ts.inputs[p][1], v)
         f = ts.frame(st, inp)
         for s1, s2 in zip(observe1, observe2):
             got = z3.simplify(f.sig(s1))
